@@ -60,7 +60,7 @@ func runC17(r *Run) {
 
 	// ---- C17.2
 	if fn := w.Fn("tmgossip.ChattyStrategy.broadcastAll"); fn != nil {
-		a := w.A(fn)
+		a := w.AU(fn)
 		ok := true
 		for h := range helpers {
 			cs := a.CallsTo(h)
@@ -74,7 +74,7 @@ func runC17(r *Run) {
 		r.Fail("C17.2", "broadcastAll", "", "not found")
 	}
 	if fn := w.Fn("tmgossip.ChattyStrategy.broadcastViewDiff"); fn != nil {
-		a := w.A(fn)
+		a := w.AU(fn)
 		for i, c := range a.CallsTo("tmgossip.ChattyStrategy.broadcastUpdatesOnly") {
 			r.RequireGuards(a, "C17.2", fmt.Sprintf("tmgossip.ChattyStrategy.broadcastViewDiff#updates-only%d", i+1), c,
 				G{Name: "same-height", Pattern: "(p3.RoundView.Height == p2.RoundView.Height)", Holds: true},
@@ -96,7 +96,7 @@ func runC17(r *Run) {
 		r.Fail("C17.2", "kernel", "", "not found")
 		return
 	}
-	ka := w.A(k)
+	ka := w.AU(k)
 	// first update: broadcastAll for Voting and, when present, Committing and NextRound
 	firstAll := 0
 	for _, c := range ka.CallsTo("tmgossip.ChattyStrategy.broadcastAll") {
@@ -177,7 +177,7 @@ func runC17(r *Run) {
 
 	// ---- C17.3
 	if fn := w.Fn("tmgossip.ChattyStrategy.broadcastUpdatesOnly"); fn != nil {
-		a := w.A(fn)
+		a := w.AU(fn)
 		// bit sets that receive InPlaceUnion inside a loop over a proof map
 		unioned := map[string]bool{}
 		for _, c := range a.CallsTo("bitset.BitSet.InPlaceUnion") {
